@@ -32,6 +32,7 @@ import (
 	"encoding/json"
 	"fmt"
 	"math"
+	"reflect"
 	"sort"
 	"sync"
 	"time"
@@ -309,6 +310,28 @@ type mwSession struct {
 	mu     sync.Mutex
 	down   []mwCMsg
 	dead   bool
+	// the messages the client received are kept as they were handed over (a write loop marshals them later, a
+	// client library keeps them): at the end of the history each must still say what it said (mwKeptCheck)
+	curOp int
+	kept  *[]mwKept
+}
+
+type mwKept struct {
+	op, pos int
+	m       mocrelay.ServerMsg
+	now     int64
+}
+
+// mwKeptCheck: a message that no longer says what it said when it was handed over is recorded as it reads now
+func mwKeptCheck(kept []mwKept, out []mwObs) {
+	for _, k := range kept {
+		if k.op < 0 || k.op >= len(out) || k.pos >= len(out[k.op].Client) {
+			continue
+		}
+		if again := mwFromSMsg(k.m, k.now); !reflect.DeepEqual(again, out[k.op].Client[k.pos]) {
+			out[k.op].Client[k.pos] = again
+		}
+	}
 }
 
 // mwDown is the recording downstream handler; one value serves every session
@@ -437,6 +460,9 @@ func (s *mwSession) exchange(cq []mocrelay.ClientMsg, sq []mocrelay.ServerMsg) m
 				s.mu.Unlock()
 				return obs
 			}
+			if s.kept != nil {
+				*s.kept = append(*s.kept, mwKept{s.curOp, len(obs.Client), m, s.now})
+			}
 			obs.Client = append(obs.Client, mwFromSMsg(m, s.now))
 		case <-s.done:
 			s.dead = true
@@ -479,6 +505,8 @@ func mwNormalize(nsess int, ops []mwOp) []mwOp {
 func mwRunSessions(h mocrelay.Handler, nsess int, ops []mwOp, now int64) []mwObs {
 	ss := make([]*mwSession, nsess)
 	out := make([]mwObs, len(ops))
+	var kept []mwKept
+	defer func() { mwKeptCheck(kept, out) }()
 	for i, op := range ops {
 		out[i] = mwObs{Down: []mwCMsg{}, Client: []mwSMsg{}}
 		if op.S < 0 || op.S >= nsess {
@@ -491,6 +519,7 @@ func mwRunSessions(h mocrelay.Handler, nsess int, ops []mwOp, now int64) []mwObs
 				ss[op.S].stop()
 			}
 			ss[op.S] = mwStart(h, now)
+			ss[op.S].kept, ss[op.S].curOp = &kept, -1
 			if o := ss[op.S].sync(); o.Timeout || len(o.Down) > 0 || len(o.Client) > 0 {
 				out[i] = o
 				out[i].Timeout = true
@@ -502,6 +531,7 @@ func mwRunSessions(h mocrelay.Handler, nsess int, ops []mwOp, now int64) []mwObs
 			}
 		default:
 			if ss[op.S] != nil {
+				ss[op.S].curOp = i
 				out[i] = ss[op.S].run(op)
 			}
 		}
@@ -516,7 +546,7 @@ func mwRunSessions(h mocrelay.Handler, nsess int, ops []mwOp, now int64) []mwObs
 
 // ---------------------------------------------------------------- generators
 
-var mwSubIDs = []string{"a", "ab", "abc", "abcd"}
+var mwSubIDs = []string{"a", "ab", "abc", "abcd", ""} // the empty id is legal
 
 // lengths are counted in bytes: "é" is 2 bytes and 1 character, "éé" 4 and 2, "日" 3 and 1, "😀" 4 and 1
 var mwContents = []string{"", "1", "12", "123", "1234", "ééééé", "é", "éé", "日", "😀"}
